@@ -22,7 +22,10 @@ def consts(sc):
 
 
 def harness_scen(sc, kind=None):
-    return {"obj": {"kind": kind or sc["kind"], "keys": sc["keys"], "bounds": [100]}, "threads": sc["threads"], "scripts": sc["scripts"], "budget": sc.get("budget", 3000)}
+    h = {"obj": {"kind": kind or sc["kind"], "keys": sc["keys"], "bounds": [100]}, "threads": sc["threads"], "scripts": sc["scripts"], "budget": sc.get("budget", 3000)}
+    if "pre" in sc:
+        h["pre"] = sc["pre"]          # initial population, made by the controller before the threads start
+    return h
 
 
 def W(key, h=0): return {"k": "with", "key": key, "h": h}
@@ -51,12 +54,18 @@ S6 = {"flavor": "int", "kind": "intcountervec", "keys": ["a"], "maxid": 3, "thre
       "scripts": {"t1": [W("a"), HI(0, 1), RM("a"), CO], "t2": [W("a"), RM("a"), HI(0, 2)]}}
 S7 = {"flavor": "int", "kind": "intcountervec", "keys": ["a", "b"], "maxid": 4, "threads": ["t1", "t2", "t3"],
       "scripts": {"t1": [W("a"), RM("a")], "t2": [W("a"), RM("a"), CO], "t3": [W("a"), RM("a"), RS]}}
+# a LARGE vector (hundreds of children) reset while it is collected and extended: reset, collect and get-or-create are single
+# atomic steps of the map however many children there are
+BIGKEYS = ["k%03d" % i for i in range(300)]
+S8 = {"flavor": "int", "kind": "intcountervec", "keys": [], "maxid": 0, "threads": ["t1", "t2", "t3"], "budget": 20000,
+      "pre": [W(k, 0) for k in BIGKEYS],
+      "scripts": {"t1": [RS], "t2": [CO, CO], "t3": [W("zz", 1), HI(1, 1), CO]}}
 INVS = "LockSafety OneChildPerKey FreshHandleIsCurrent IdsBounded"
 
 
-def run_scenario(ctx, exe, sc, label, stats, samples, model=True, nrandom=0, kinds=None, nproc=8):
+def run_scenario(ctx, exe, sc, label, stats, samples, model=True, nrandom=0, kinds=None, nproc=8, check=True):
     d = {"MCScript": script_tla(sc["scripts"])}
-    r = tlc(ctx, "VecImpl", "CONSTANTS\n%s\nSPECIFICATION Spec\nINVARIANTS %s\nPROPERTIES Termination RefinesVec\nCHECK_DEADLOCK FALSE\n" % (consts(sc), INVS),
+    r = {"ok": True, "actions_never": []} if not check else tlc(ctx, "VecImpl", "CONSTANTS\n%s\nSPECIFICATION Spec\nINVARIANTS %s\nPROPERTIES Termination RefinesVec\nCHECK_DEADLOCK FALSE\n" % (consts(sc), INVS),
             mc_text=mc_module("MC" + label, "VecImpl", d), mc_name="MC" + label, workers=8, label="inv" + label)
     if not r["ok"]:
         raise ToolError("VecImpl %s violates %s (specification error)\n%s" % (label, r["violated"], r["output"][-2500:]))
@@ -136,7 +145,9 @@ def run(ctx):
         run_scenario(ctx, exe, S2, "S2", stats, samples, nrandom=100, kinds=["intcountervec"])
         run_scenario(ctx, exe, S3, "S3", stats, samples, nrandom=100, kinds=["countervec"])
         run_scenario(ctx, exe, S6, "S6", stats, samples, nrandom=300, kinds=["intcountervec"])
+        run_scenario(ctx, exe, S8, "S8", stats, samples, model=False, check=False, nrandom=40, kinds=["intcountervec"])
     else:
+        run_scenario(ctx, exe, S8, "S8", stats, samples, model=False, check=False, nrandom=1500, kinds=["intcountervec", "countervec"])
         run_scenario(ctx, exe, S6, "S6", stats, samples, nrandom=3000, kinds=["intcountervec", "countervec"])
         run_scenario(ctx, exe, S7, "S7", stats, samples, model=False, nrandom=10000, kinds=["intcountervec"])
         run_scenario(ctx, exe, S1, "S1", stats, samples, nrandom=2000, kinds=["intcountervec"])
